@@ -2,10 +2,12 @@ SPECIFICATION Spec
 CONSTANTS MaxPlan = 2
  CatalogName = "small"
  OptsName = "two"
+ TimesName = "one"
 INVARIANT Confined
 INVARIANT Exact
 INVARIANT DryRunNoop
 INVARIANT Idempotent
+INVARIANT OnlyChangedByTime
 INVARIANT LogNamesCreated
 INVARIANT UninstallRemovesExactlyLog
 INVARIANT OrderIndependent
